@@ -44,7 +44,7 @@ def run(ctx):
                    "identifier absent from both maps, the two sender sets coincide, and every round-two share is "
                    "verified for (own identifier, that share, the same sender's round-one commitment) before it is "
                    "accumulated; the errors name the loop's sender / the proof's identifier; the proof challenge "
-                   "binds identifier, constant-term commitment and R.")
+                   "binds identifier, constant-term commitment and R. The proof-of-knowledge challenge is identified as the Ok payload of the private helper that hashes with HDKG (any name / signature) and its preimage [identifier, phi_0, R] is decided at the call site of the prover and of the verifier; Error::culprits() yields exactly what each variant carries.")
     ctx.undecided = ("soundness of the Schnorr proof and 'first step that consumes the faulty field' across all "
                      "fault kinds.")
     ctx.floor = 18
